@@ -2,6 +2,7 @@ package alias
 
 import (
 	"context"
+	"fmt"
 	"testing"
 
 	"github.com/OffchainLabs/go-bitfield"
@@ -25,7 +26,7 @@ import (
 
 type vapiRig struct {
 	c    *validatorapi.Component
-	outs [2][]core.ParSignedDataSet
+	outs [][]core.ParSignedDataSet
 	kept []any // values the registered query functions returned to the component
 }
 
@@ -325,8 +326,8 @@ func probeValidatorAPI(t *testing.T, thorough bool) {
 					skip("validatorapi: %v", err)
 					return
 				}
-				r := &vapiRig{c: comp}
-				for i := 0; i < 2; i++ {
+				r := &vapiRig{c: comp, outs: make([][]core.ParSignedDataSet, rigSubs)}
+				for i := 0; i < rigSubs; i++ {
 					comp.Subscribe(func(_ context.Context, _ core.Duty, set core.ParSignedDataSet) error {
 						r.outs[i] = append(r.outs[i], set)
 						return nil
@@ -337,9 +338,11 @@ func probeValidatorAPI(t *testing.T, thorough bool) {
 					skip("validatorapi %s %s: handler fails: %v", c.handler, c.typ, err)
 					return
 				}
-				if len(r.outs[0]) == 0 || len(r.outs[0]) != len(r.outs[1]) {
-					skip("validatorapi %s %s: subscribers called %d/%d times", c.handler, c.typ, len(r.outs[0]), len(r.outs[1]))
-					return
+				for i := range r.outs {
+					if len(r.outs[i]) == 0 || len(r.outs[i]) != len(r.outs[0]) {
+						skip("validatorapi %s %s: subscriber %d of %d called %d times", c.handler, c.typ, i+1, len(r.outs), len(r.outs[i]))
+						return
+					}
 				}
 				path, shape, a, held := pick(r, req)
 				observe(path, c.typ, shape, a, held, nil)
@@ -353,5 +356,21 @@ func probeValidatorAPI(t *testing.T, thorough bool) {
 			return "validatorapi." + c.handler + ">subscriber|subscriber", "sibling", Named{"subscriber 1 sets", r.outs[0]},
 				[]Named{{"subscriber 2 sets", r.outs[1]}, {"request object held by the caller", req}, {"query results given to the component", r.kept}}
 		})
+		for _, lay := range subLayouts {
+			n, pos := lay[0], lay[1]
+			rigSubs = n
+			run(func(r *vapiRig, req any) (string, string, Named, []Named) {
+				held := []Named{{"request object held by the caller", req}, {"query results given to the component", r.kept}}
+				for i := range r.outs {
+					if i != pos {
+						held = append(held, Named{fmt.Sprintf("subscriber %d sets", i+1), r.outs[i]})
+					}
+				}
+
+				return "validatorapi." + c.handler + ">subscriber[" + posName(n, pos) + "]|everybody else", "sibling",
+					Named{"subscriber sets (" + posName(n, pos) + ")", r.outs[pos]}, held
+			})
+			rigSubs = 2
+		}
 	}
 }
